@@ -3,13 +3,16 @@ ENGINES = [
   'kind_free_text': 'parser for the SQL text pony emits + denotational semantics over a symbolic database in z3 (per-dialect deltas), compared with a Python-semantics oracle'},
  {'name': 'E2-expreq', 'path': 'engine/expreq.py', 'serves_properties': ['C03', 'C04'],
   'kind_free_text': 'z3 encoding of Python expression semantics; decides whether two expression trees (source vs decompiled / regenerated) can evaluate differently'},
- {'name': 'E3-crosshair', 'path': 'engine/ch.py', 'serves_properties': ['C08'],
+ {'name': 'E3-crosshair', 'path': 'engine/ch.py', 'serves_properties': ['C08', 'C30'],
   'kind_free_text': 'CrossHair (z3-backed symbolic execution of the real Python functions) with reachability twins and untraced replay'},
 ]
 NOTES = ('Solver-based checking of the real code. Every check imports pony from /repo at run time; exit 0 = all obligations '
          'discharged or matched a listed known finding; exit 1 + VIOLATION = reproduced counterexample; exit 2 = harness error. '
          'Inconclusive solver results are printed (INCONCLUSIVE) and counted in evidence, never counted as discharged; VERIF_STRICT=1 makes them exit 2.')
 CLAIMS = {
+ 'C30': dict(engine='E3-crosshair', level='other', technique='CrossHair/z3 symbolic execution of the real adapt_sql / parse_raw_sql / parse_expr with symbolic SQL text and parameter style against a reference statement of the documented rule; two-step histories compared with a cold run; finite template family as concrete obligations',
+   text='For symbolic SQL text (len<=3, thorough 4, over the characters the adapter distinguishes) and each of the five parameter styles, CrossHair confirms over all paths that adapt_sql/parse_raw_sql produce the documented substitution ($$ -> $, $expr[;] -> placeholder in order, % doubled for format styles when parameters exist, other text unchanged, compiled expressions evaluate in order) and that a second adaptation does not depend on the first (same and different styles). Calls/subscripts/quoted brackets are covered by a finite concrete template family.',
+   note='Trusted: crosshair-tool, z3, reference scanner in checks/h_c30.py. CrossHair path cost (~0.15 s) bounds the text length; regex matching on symbolic text is decided per path. Outside: texts longer than the bound, expression forms outside the template family, evaluation scope lookup (C04).'),
  'C03': dict(engine='E2-expreq', level='translation_validation', technique='z3 equivalence query (ExprEq: Python truthiness/value semantics over Int/uninterpreted functions) between the source AST and the tree the real Decompiler reconstructs from CPython bytecode, per enumerated expression; models replayed with eval',
    text='For every enumerated expression (bounded grammar, depth<=3, 4 names) placed as generator condition, generator element, lambda body, and for multi-clause generators, the running CPython compiles it, the real pony.orm.decompiling.Decompiler reconstructs an AST, and z3 decides whether ANY assignment to the free names makes the reconstructed tree differ from the source tree (truthiness for conditions, value for elements/lambda bodies). A decompiler exception is the allowed rejection.',
    note='Trusted: engine/expreq.py encoding of Python expression semantics (and/or return operands, chained comparisons single-evaluation, uninterpreted attribute/call/subscript), z3, CPython eval for replay. Outside: other CPython versions, depth > bound, await/walrus/starred calls.'),
@@ -38,5 +41,5 @@ NOT_APPLICABLE = {
  'C32': 'detached objects read-only: enumeration of operations x object statuses, no value-dependent decision; ' + _HEAP,
  'C33': 'hooks once per change: call counting over flush rounds driven by arbitrary user hook bodies; ' + _HEAP,
 }
-for _p in ['C01','C02','C05','C06','C07','C13','C17','C18','C19','C20','C21','C22','C24','C26','C27','C28','C29','C30','C31','C34','C35','C36']:
+for _p in ['C01','C02','C05','C06','C07','C13','C17','C18','C19','C20','C21','C22','C24','C26','C27','C28','C29','C31','C34','C35','C36']:
     NOT_APPLICABLE.setdefault(_p, _TODO)
